@@ -13,6 +13,15 @@ from . import common
 
 ID = 'C14'
 LEVEL = 'fault_enumeration'
+# scenario variants and fault kinds mixed into the seeded part (reported in
+# the evidence; DESIGN 14.6 says where each came from)
+VARIANTS = [
+    "gaps between packets, slow origin, persistent outgoing-listener fault",
+    "negotiation-phase origins, OSError fault classes",
+    "second thread connecting while the fault is handled (adversarial schedules)",
+    "final handler that disconnects and lingers",
+    "another thread keeping the write lock busy"
+]
 RUNS = {'quick': 2500, 'thorough': 150000}     # sampled part
 WALL_CAP = {'quick': 240, 'thorough': 3300}
 
